@@ -309,6 +309,13 @@ def main(tier, seed, replay=None):
         except Exception as e:  # noqa
             ck.broke("correspondence", "modelrun-stream", repr(e))
     ck.count("record_streams", nstreams)
+    # 6. the per-channel switch in histories (RECONFIGURE before / after the channel object exists, objects dropped and re-created)
+    try:
+        from props import chan_model
+
+        chan_model.reconf_correspondence(ck, ok, tier, replay)
+    except ImportError:
+        pass
     if tier == "thorough" and not replay:
         other_interpreters(ck, [v for v in vals[:300] if "nan" not in repr(v)])
     ck.cov["programs"] = len(vals) + len(lcases)
